@@ -162,19 +162,25 @@ def r3(db, rep, pp):
             key = "%s:erase-condition#%d" % (tag, i)
             txt = " ".join(facts.expr_str(l) + " " + facts.expr_str(rr or {}) for op, l, rr in gf)
             if tag == "process_packet":
-                # dominated by the if whose condition is is_finished() || terminate_stream
-                iff = enclosing_if(f, e)
-                ctext = facts.expr_str(iff["c"][0] if iff and iff["c"][0] is not None else (iff["c"][1] if iff else {})) if iff else ""
-                good = iff is not None and "is_finished" in ctext and "terminate_stream" in ctext
-                why = "erase under `%s`" % ctext[:60]
+                # reachable exactly when is_finished() or the limit test holds, whatever else is tested on the way
+                roles = {"fin": lambda a: "is_finished" in a, "term": lambda a: "terminate_stream" in a or "max_buffered" in a}
+                atoms, table = formula.reach_table(f, g.pos(e), lambda a: any(p_(a) for p_ in roles.values()))
+                good, why = formula.compare(atoms, table, roles, lambda en: en["fin"] or en["term"])
+                why = "erase reachable iff is_finished() or over the limits: " + why
             else:
-                good = "last_seen" in txt and "stream_keep_alive_" in txt
-                why = "erase under the keep-alive comparison"
+                # reachability of the erase as a function of the keep-alive comparison alone (however the loop is spelled)
+                atoms, table = formula.reach_table(f, g.pos(e), lambda a: "last_seen" in a and "stream_keep_alive_" in a)
+                good, why = False, "erase does not depend on the keep-alive comparison"
+                if len(atoms) == 1 and " < " in atoms[0]:
+                    idle_when = "last_seen" in atoms[0].split(" < ")[0]      # `last+keep < now` (True = idle) or `now < last+keep` (False = idle)
+                    good = table[(idle_when,)] and not table[(not idle_when,)]
+                    why = "erase reachable exactly when `%s` is %s" % (atoms[0][:60], idle_when) if good else \
+                        "erase reachable for a stream that has not been idle for the keep-alive time (`%s`)" % atoms[0][:60]
             if good:
                 rep.ok("R3-terminate", key, facts.loc(f, e), why)
             else:
                 rep.violation("R3-terminate", key, facts.loc(f, e), "a stream is forgotten on a path that is not `finished / over the limits / idle too long` (%s)" % why)
-            # iterator not used after erase
+            # iterator not used after erase: from the erase, no read of the iterator is reached before it is re-assigned
             arg = strip(cfg.args(e)[0]) if cfg.args(e) else None
             var = None
             for x in facts.walk(arg) if arg else []:
@@ -183,11 +189,18 @@ def r3(db, rep, pp):
             postinc = arg is not None and any(x["k"] in ("UnaryOperator", "CXXOperatorCallExpr") and x.get("op") == "++" for x in facts.walk(arg))
             used_after = False
             if var and not postinc:
+                writes, lhs_ids = [], set()
                 for x in facts.fn_nodes(f):
-                    if x["k"] == "DeclRefExpr" and x.get("var") == var and g.pos(x) and g.reachable(g.pos(e), g.pos(x)):
-                        # re-assignment is fine
-                        p = g.parent.get(x["id"])
-                        used_after = True
+                    l = None
+                    if x["k"] == "BinaryOperator" and x.get("op") == "=":
+                        l = strip(x["c"][0])
+                    elif x["k"] == "CXXOperatorCallExpr" and x.get("op") == "=" and len(x["c"]) >= 3:
+                        l = strip(x["c"][1])
+                    if l is not None and l["k"] == "DeclRefExpr" and l.get("var") == var:
+                        writes.append(g.pos(x))
+                        lhs_ids.add(l["id"])
+                reads = [g.pos(x) for x in facts.fn_nodes(f) if x["k"] == "DeclRefExpr" and x.get("var") == var and x["id"] not in lhs_ids]
+                used_after = g.first_hit(g.pos(e), [p_ for p_ in reads if p_], [p_ for p_ in writes if p_]) is not None
             key2 = "%s:no-use-after-erase#%d" % (tag, i)
             if used_after:
                 rep.violation("R3-terminate", key2, facts.loc(f, e), "the erased iterator `%s` is used afterwards" % var.split("#")[0])
@@ -289,11 +302,13 @@ def r6(db, rep, pp):
     ins = [n for n in facts.fn_nodes(pp) if n["k"] == "CXXMemberCallExpr" and n.get("cname") in ("insert", "emplace") and
            "streams_" in facts.expr_str(cfg.receiver(n))]
     if ins:
-        iff = enclosing_if(pp, ins[0])
-        c = iff["c"][0] if iff["c"][0] is not None else iff["c"][1]
-        atoms, table = formula.expr_table(pp, c)
+        iff = ins[0]
         roles = {"syn": lambda a: "SYN" in a, "ack": lambda a: "ACK" in a, "attach": lambda a: "attach_to_flows_" in a,
                  "data": lambda a: "RawPDU" in a or "find_pdu" in a}
+        # under which values of these four conditions can the insertion be reached at all (every other test left open)?
+        # - the same table whether the code nests the creation in an `if`, returns early under the negated test, ...
+        g_ = cfg.FnCFG(pp)
+        atoms, table = formula.reach_table(pp, g_.pos(ins[0]), lambda a: any(p_(a) for p_ in roles.values()))
         # the data atom is `find_pdu<RawPDU>() == 0`-shaped: find its polarity from the key text
         def want(e):
             data = e["data"]
